@@ -1,4 +1,5 @@
 """C11 -- processor-level property; see proccheck.py / procgen.py / coq/Processor.v / coq/ProcMonitor.v."""
+import exitcheck
 import proccheck
 
 LEVEL = "proof"
@@ -6,3 +7,4 @@ LEVEL = "proof"
 
 def run(chk, replay=None):
     proccheck.run(chk, "PropC11", {'exit': 7, 'mixed': 2, 'all_ok': 1}, 260, 4000, [501, 502], replay=replay)
+    exitcheck.run_stage(chk)
